@@ -263,6 +263,15 @@ def gen_c09(rng, tier):
     return P.lines()
 
 
+def _throw_op(rng, P):
+    """every thrower of a program gets its own message ("hgv boom <id>"); some throw an object that is not a
+    std::exception (the error tick must then say "unknown error")"""
+    P.nthrow = getattr(P, "nthrow", 0) + 1
+    if rng.random() < 0.15:
+        return [11, 0, 0]
+    return [8, 10 * P.nthrow + rng.randint(0, 9), 0]
+
+
 def gen_c15(rng, tier):
     start = rng.randint(1, 3)
     end = start + rng.randint(8, 14 if tier == "quick" else 24)
@@ -300,7 +309,7 @@ def gen_c15(rng, tier):
                 sc[rng.randint(4, 7)] = [[6, 0, 0]]
             for k in throw_runs():
                 pre = [op for op in sc.get(k, sc[-2]) if rng.random() < 0.5]
-                sc[k] = pre + [[8, rng.randint(1, 9), 0]]
+                sc[k] = pre + [_throw_op(rng, P)]
             n = P.add(0, kind=3, us=us, ho=1, ins=[(rng.choice(srcs), 0, 1, 1)] + ([(rng.choice(srcs), 0, 0, 0)] if rng.random() < 0.3 else []),
                       scripts=sc)
             recorder(P, 0, n, 0)
@@ -320,11 +329,11 @@ def gen_c15(rng, tier):
             fb = body[fidx]
             for k in throw_runs():
                 pre = [op for op in fb["scripts"].get(k, fb["scripts"][-2]) if rng.random() < 0.5]
-                fb["scripts"][k] = pre + [[8, rng.randint(1, 9), 0]]
+                fb["scripts"][k] = pre + [_throw_op(rng, P)]
             if rng.random() < 0.25:
                 f2 = body[rng.randrange(len(body))]
                 k = rng.randint(0, 4)
-                f2["scripts"][k] = [[8, rng.randint(1, 9), 0]]
+                f2["scripts"][k] = [_throw_op(rng, P)]
             depth = rng.choice([1, 1, 1, 2, 3])
             kinds = [2] + [1] * (depth - 1)
             rng.shuffle(kinds)                        # try_except at some level of the nest
@@ -343,7 +352,7 @@ def gen_c15(rng, tier):
         P.hints.append([8, 0, c])
     if rng.random() < 0.04:
         # an uncaptured failure: the run must stop with the error
-        P.add(0, ins=[(srcs[0], 0, 1, 1)], scripts={rng.randint(0, 3): [[8, 9, 0]]})
+        P.add(0, ins=[(srcs[0], 0, 1, 1)], scripts={rng.randint(0, 3): [_throw_op(rng, P)]})
     return P.lines()
 
 
@@ -523,8 +532,8 @@ def throws_in(pc, run):
         if l[0] == 12:
             g, i, t, k = l[1], l[2], l[3], l[4]
             for (code, a, b) in script_for(pc["scripts"], g, i, k):
-                if code == 8:
-                    res.append((g, i, t, 100 + a))
+                if code in (8, 11):
+                    res.append((g, i, t, 100 + a if code == 8 else 2))
                     break
     return res
 
@@ -658,10 +667,10 @@ def oracle_timers(pc, run, fails, aborted_ok, kind_fn=None):
                     elif code == 5:
                         dropped += [(key, e[0]) for e in pending[key]]
                         pending[key].clear()
-                    elif code == 8:
+                    elif code in (8, 11):
                         break
             for (code, a, b) in script_for(pc["scripts"], key[0], key[1], k):
-                if code == 8:
+                if code in (8, 11):
                     # the cycles of the graphs between the thrower and the capturing node are abandoned
                     g = key[0]
                     cap = enclosing_try(pc, key[0], key[1])
@@ -893,7 +902,7 @@ def oracle_c15(pc, runs, fails):
     for l in run:
         if l[0] == 12:
             for (code, a_, b_) in script_for(pc["scripts"], l[1], l[2], l[4]):
-                if code == 8:
+                if code in (8, 11):
                     break
                 if code == 7 and a_ > 0 and (l[1], l[2], l[3] + a_) not in evald:
                     lost.append(((l[1], l[2]), l[3] + a_))
